@@ -102,7 +102,17 @@ pub async fn accept_loop<F>(
 {
     add_thread_local_log_tag("thread_name", "accept_loop");
     loop {
-        let token = token_set.async_wait_token().await;
+        // Stop waiting for a token when the permit is revoked.
+        // Otherwise, the server cannot stop while all of the tokens are in use.
+        let token = match FutureExt::or(async { Some(token_set.async_wait_token().await) }, async {
+            (&mut permit).await;
+            None
+        })
+        .await
+        {
+            Some(token) => token,
+            None => return,
+        };
         if permit.is_revoked() {
             return;
         }
